@@ -352,6 +352,22 @@ pub fn keeps(r: &mut Rng, sz: &Sizes, out: &mut Vec<String>) {
     }
 }
 
+pub fn c09(r: &mut Rng, sz: &Sizes, out: &mut Vec<String>) {
+    reachable_ops(r, sz, out);
+    let k = if sz.histories > 10_000 { 16 } else { 4 };
+    for h in small_histories() {
+        if h.len() <= 2 {
+            let hexes: Vec<String> = h.iter().map(|d| crate::wire::hex(d.as_bytes())).collect();
+            out.push(format!("p_c09\t{k}\t{}\t!ok *", hexes.join("\t")));
+        }
+    }
+    for _ in 0..sz.histories / 2 {
+        let h = rand_history(r, &KEYS[..8]);
+        let hexes: Vec<String> = h.iter().map(|d| hex_doc(d, r.below(4))).collect();
+        out.push(format!("p_c09\t{k}\t{}\t!ok *", hexes.join("\t")));
+    }
+}
+
 pub fn generate(prop: &str, tier: &str, seed: u64) -> Vec<String> {
     let mut r = Rng(seed ^ 0x5eed_0000 ^ (prop.bytes().fold(0u64, |a, b| a * 131 + b as u64)));
     let sz = sizes(tier);
@@ -363,6 +379,7 @@ pub fn generate(prop: &str, tier: &str, seed: u64) -> Vec<String> {
         "C03" => c03(&mut r, &sz, &mut out),
         "keeps" => keeps(&mut r, &sz, &mut out),
         "C06" => c06(&mut r, &sz, &mut out),
+        "C09" => c09(&mut r, &sz, &mut out),
         "C08" => c08(&mut r, &sz, &mut out),
         "C17" => c17(&mut r, &sz, &mut out),
         "core" => core(&mut r, &sz, &mut out),
